@@ -67,6 +67,11 @@ claim("C12", "Coq proof (a repeated label is never accepted by the three map dec
       "Theorems: for header, COSE_Key and claims-set decoders, any map in which two keys normalise to the same label is never accepted, and yields DuplicateMapKey whenever the entries before the second occurrence are acceptable; header_to_value / CoseKey_to_value outputs have pairwise distinct keys (extras repeating a label or naming a populated typed field fail). ClaimsSet encoding has no duplicate check: proved witness, listed as known finding F2b (pinned upstream by test_cwt_dup_claim). Implementation is run on otherwise-valid maps with one duplicated, differently encoded key at every position and nesting position, and on in-memory values with clashing extras whose output maps are parsed independently.",
       COMMON_NOTE, "DESIGN.md 7 (C12), 8 (F2)")
 
+
+claim("C02", "Coq proof (decoded protected headers keep the received bytes at every nesting level - hereditary invariant through counter-signatures, signers, recipients, KDF supp info - and encoding writes them back verbatim; parsed view independent of encoding) + correspondence over several encodings x carriers x nesting positions with independent oracles",
+      "Theorems: protected_from_bstr stores exactly the received byte string and protected_cbor_bstr returns it whatever the parsed header is; for each of the eight message types and SuppPubInfo the slot is retained on decode and re-emitted on encode; an inductive invariant shows every protected header nested anywhere inside any decoded header/message (counter-signatures, signers, nested recipients, KDF) carries retained bytes; two encodings that parse to the same value give the same parsed view, and h'' / h'a0' both give the empty view. The implementation is run on header contents in >= 4 encodings (widths, indefinite lengths, key order, empty forms) in ten carrier/nesting shapes: retained bytes, re-encoded bytes, and the bytes handed to tbs/tbm/aad helpers are compared with the wire bytes and an independent Python Sig/MAC/Enc_structure.",
+      COMMON_NOTE, "DESIGN.md 7 (C02)")
+
 def main():
     props = sorted(TITLES)
     checks = []
